@@ -12,7 +12,9 @@ Not decided: compiled == interpreted values (Numba's code generation is the trus
 layouts/dtypes the explicitly-signed kernels accept (a dispatch TypeError is not an index error).
 """
 import ast
+import re
 
+from ..engine.flow import Domain, Flow
 from ..engine.model import AnalysisError, src, walk_own
 from ..engine.bounds import Bounds, Aff, Shp, sign, parse_extent
 from ..engine.mrspec import P as CONTRACTS, R as RETURNS
@@ -31,12 +33,15 @@ def kernels(model):
     return out
 
 
-def arg_shape(e, depth=0):
+def arg_shape(e, depth=0, env=None):
     """Extents visible in an argument expression of a Python-layer call: explicit slices give affine extents
-    over local names, everything else a symbol derived from the expression text."""
+    over local names, everything else a symbol derived from the expression text.  `env` maps local names to the
+    shape of the value they hold on the path being analysed (ShapeDomain)."""
+    if isinstance(e, ast.Name) and env and e.id in env:
+        return env[e.id]
     if isinstance(e, ast.Subscript):
         items = e.slice.elts if isinstance(e.slice, ast.Tuple) else [e.slice]
-        base = arg_shape(e.value, depth + 1)
+        base = arg_shape(e.value, depth + 1, env)
         out = []
         for k, it in enumerate(items):
             if isinstance(it, ast.Slice):
@@ -68,7 +73,7 @@ def arg_shape(e, depth=0):
         if e.func.attr in ('gTM',) or False:
             return (Aff(4), Aff(4))
         if e.func.attr in ('copy',):
-            return arg_shape(e.func.value, depth + 1)
+            return arg_shape(e.func.value, depth + 1, env)
         if e.func.attr in ('flatten', 'reshape'):
             return None
     if isinstance(e, ast.Attribute) and e.attr == 'TM':
@@ -98,6 +103,122 @@ def to_aff(e):
     if isinstance(e, ast.Call) and isinstance(e.func, ast.Name) and e.func.id == 'len' and e.args:
         return Aff.sym('len(%s)' % src(e.args[0]))
     return None
+
+
+def site_check(k, c, contract, env):
+    unres = []
+    binding = {}
+    conflict = None
+    for pi, a in enumerate(c.args):
+        if pi >= len(k.params):
+            break
+        shp = contract.get(k.params[pi])
+        if not shp or shp == ():
+            continue
+        got = arg_shape(a, 0, env)
+        if got is None:
+            continue
+        partial = got and got[-1] == '?'
+        if partial:
+            got = got[:-1]
+        if not partial and len(got) != len(shp):
+            continue
+        for d, ext in enumerate(got[:len(shp)]):
+            want = shp[d]
+            if isinstance(want, int):
+                if ext.is_const() and ext.c != want:
+                    conflict = ('argument %d (%s) has extent %r in dimension %d, the kernel contract says %d'
+                                % (pi, src(a)[:50], ext, d, want))
+                continue
+            sym = parse_extent(want)
+            if len(sym.t) != 1:
+                continue
+            (sname, coef), = sym.t.items()
+            val = (ext - Aff(sym.c))
+            if sname in binding:
+                prev, parg = binding[sname]
+                diff = prev - val
+                if diff.is_const() and diff.c != 0:
+                    conflict = ('extent `%s` of the contract is %r according to %s but %r according to %s: the kernel '
+                                'indexes %d element(s) past the shorter argument' % (sname, prev, parg, val, src(a)[:50], abs(diff.c)))
+                elif not diff.is_const():
+                    unres.append('cannot compare %r and %r' % (prev, val))
+            else:
+                binding[sname] = (val, src(a)[:50])
+    return binding, conflict, unres
+
+
+class ShapeDomain(Domain):
+    """Path-sensitive map local name -> shape of the (sliced) value it holds; records the map at every Call node."""
+
+    def __init__(self):
+        self.at_call = {}
+
+    def _record(self, node, state):
+        for n in ast.walk(node):
+            if isinstance(n, ast.Call):
+                self.at_call.setdefault(n, set()).add(state)
+
+    @staticmethod
+    def _kill(state, text):
+        pat = re.compile(r'(?<![\w.])%s(?![\w])' % re.escape(text))
+        return frozenset((n, shp) for (n, shp) in state
+                         if n != text and not any(isinstance(a, Aff) and any(pat.search(sym) for sym in a.t) for a in shp))
+
+    def _targets(self, t):
+        if isinstance(t, (ast.Tuple, ast.List)):
+            for x in t.elts:
+                yield from self._targets(x)
+        elif isinstance(t, ast.Starred):
+            yield from self._targets(t.value)
+        elif isinstance(t, ast.Subscript):
+            yield from self._targets(t.value)
+        else:
+            yield src(t)
+
+    def transfer(self, stmt, state):
+        self._record(stmt, state)
+        tgts = []
+        if isinstance(stmt, ast.Assign):
+            for t in stmt.targets:
+                tgts.extend(self._targets(t))
+        elif isinstance(stmt, (ast.AugAssign, ast.AnnAssign)):
+            tgts.extend(self._targets(stmt.target))
+        elif isinstance(stmt, (ast.FunctionDef, ast.ClassDef)):
+            tgts.append(stmt.name)
+        new = None
+        if isinstance(stmt, ast.Assign) and len(stmt.targets) == 1 and isinstance(stmt.targets[0], ast.Name):
+            shp = arg_shape(stmt.value, 0, dict(state))
+            if shp is not None:
+                new = (stmt.targets[0].id, tuple(shp))
+        for t in tgts:
+            state = self._kill(state, t)
+        if new is not None and not any(re.search(r'(?<![\w.])%s(?![\w])' % re.escape(new[0]), sym) for a in new[1] if isinstance(a, Aff) for sym in a.t):
+            state = state | {new}
+        return (state,)
+
+    def enter_loop(self, node, state):
+        if isinstance(node, (ast.For, ast.AsyncFor)):
+            for t in self._targets(node.target):
+                state = self._kill(state, t)
+        return (state,)
+
+    def with_enter(self, node, state):
+        for it in node.items:
+            self._record(it.context_expr, state)
+            if it.optional_vars is not None:
+                for t in self._targets(it.optional_vars):
+                    state = self._kill(state, t)
+        return (state,)
+
+    def on_return(self, node, state):
+        if node.value is not None:
+            self._record(node.value, state)
+        return (state,)
+
+    def effects(self, expr, state):
+        self._record(expr, state)
+        return (state,)
 
 
 def check(model, rep):
@@ -137,6 +258,15 @@ def check(model, rep):
     rep.floor('R17.1', 'integer index components', n_int, 150)
     # ---------------------------------------------------------------- R17.2
     kernel_by_name = {fi.name: fi for fi in ks}
+    _envs = {}
+
+    def call_envs(fi):
+        if fi.key not in _envs:
+            d = ShapeDomain()
+            if any(isinstance(n, ast.Name) for c_ in walk_own(fi.node) if isinstance(c_, ast.Call) for n in c_.args):
+                Flow(d).run(fi.node.body, {frozenset()})
+            _envs[fi.key] = d.at_call
+        return _envs[fi.key]
     n_sites = 0
     n_tied = 0
     for fi in model.all_funcs:
@@ -155,44 +285,15 @@ def check(model, rep):
             contract = CONTRACTS.get(k.name)
             if not contract:
                 continue
+            envs = call_envs(fi).get(c) or {frozenset()}
             binding = {}
             conflict = None
-            for pi, a in enumerate(c.args):
-                if pi >= len(k.params):
-                    break
-                shp = contract.get(k.params[pi])
-                if not shp or shp == ():
-                    continue
-                got = arg_shape(a)
-                if got is None:
-                    continue
-                partial = got and got[-1] == '?'
-                if partial:
-                    got = got[:-1]
-                if not partial and len(got) != len(shp):
-                    continue
-                for d, ext in enumerate(got[:len(shp)]):
-                    want = shp[d]
-                    if isinstance(want, int):
-                        if ext.is_const() and ext.c != want:
-                            conflict = ('argument %d (%s) has extent %r in dimension %d, the kernel contract says %d'
-                                        % (pi, src(a)[:50], ext, d, want))
-                        continue
-                    sym = parse_extent(want)
-                    if len(sym.t) != 1:
-                        continue
-                    (sname, coef), = sym.t.items()
-                    val = (ext - Aff(sym.c))
-                    if sname in binding:
-                        prev, parg = binding[sname]
-                        diff = prev - val
-                        if diff.is_const() and diff.c != 0:
-                            conflict = ('extent `%s` of the contract is %r according to %s but %r according to %s: the kernel '
-                                        'indexes %d element(s) past the shorter argument' % (sname, prev, parg, val, src(a)[:50], abs(diff.c)))
-                        elif not diff.is_const():
-                            rep.unresolved_item('R17.2', '%s:%d' % (fi.module.relpath, c.lineno), 'cannot compare %r and %r' % (prev, val))
-                    else:
-                        binding[sname] = (val, src(a)[:50])
+            for st in sorted(envs, key=lambda z: sorted(map(repr, z))):
+                b_, c_, unres_ = site_check(k, c, contract, dict(st))
+                for u in unres_:
+                    rep.unresolved_item('R17.2', '%s:%d' % (fi.module.relpath, c.lineno), u)
+                binding.update(b_)
+                conflict = conflict or c_
             if binding:
                 n_tied += 1
             if conflict or binding:
